@@ -3,7 +3,11 @@ package main
 import (
 	_ "embed"
 	"encoding/json"
+	"fmt"
+	"sort"
 	"strings"
+
+	"golang.org/x/tools/go/ssa"
 )
 
 //go:embed tables/impl_guards.json
@@ -142,4 +146,91 @@ func implicitZeroStore(effects map[string]bool, canon string) bool {
 		}
 	}
 	return false
+}
+
+//go:embed tables/pure_shapes.json
+var pureShapesJSON []byte
+
+// shapeOf: the complete observable shape of a small pure helper — every branch condition and every
+// result form, in normal form.
+func (r *Run) shapeOf(fn *ssa.Function) []string {
+	set := map[string]bool{}
+	for _, g := range r.P.Info(fn).guards {
+		c := g.Cond
+		// one polarity
+		s, n := c.String(), c.Negate().String()
+		if n < s {
+			s = n
+		}
+		set["branch "+s] = true
+	}
+	for _, e := range r.P.Effects(fn) {
+		switch {
+		case e.Kind == "return":
+			set[e.Canon] = true
+		case strings.Contains(e.Canon, "interface{}") || strings.Contains(e.Canon, "[]any") || strings.Contains(e.Canon, "Log.") || strings.Contains(e.Canon, "log.") || strings.HasPrefix(e.Canon, "fmt."):
+			// logging and its argument arrays
+		case e.Kind == "call" && (strings.HasPrefix(e.Callee, "(*math/big.Int).") || strings.HasPrefix(e.Callee, "math/big.") || strings.HasPrefix(e.Callee, "common.M")):
+			set["calc "+e.Canon] = true
+		case e.Kind == "store":
+			set[e.Canon] = true
+		}
+	}
+	var out []string
+	for s := range set {
+		out = append(out, s)
+	}
+	sort.Strings(out)
+	return out
+}
+
+// PureShapes: the listed arithmetic/time-window helpers have exactly the frozen branch conditions
+// and result expressions. They are a few lines each and have no effects, so any difference is a
+// different function (a changed modulus, operand or boundary), not a refactor.
+func (r *Run) PureShapes(fnNames []string, why string) {
+	var rows []tableRow
+	if err := json.Unmarshal(pureShapesJSON, &rows); err != nil {
+		panic("bad embedded table: " + err.Error())
+	}
+	want := map[string]map[string]bool{}
+	for _, row := range rows {
+		if want[row.F] == nil {
+			want[row.F] = map[string]bool{}
+		}
+		want[row.F][row.C] = true
+	}
+	for _, name := range fnNames {
+		fn := r.fn(name)
+		if fn == nil {
+			continue
+		}
+		file, line := r.P.FnPos(fn)
+		w := want[name]
+		if len(w) == 0 {
+			r.viol("vacuous-rule", name, "pure shape", "no frozen shape for "+name, why, file, line)
+			continue
+		}
+		got := map[string]bool{}
+		for _, s := range r.shapeOf(fn) {
+			got[s] = true
+		}
+		var missing, extra []string
+		for s := range w {
+			if !got[s] {
+				missing = append(missing, s)
+			}
+		}
+		for s := range got {
+			if !w[s] {
+				extra = append(extra, s)
+			}
+		}
+		sort.Strings(missing)
+		sort.Strings(extra)
+		if len(missing)+len(extra) > 0 {
+			r.viol("K4-pure-shape", name, "branch conditions and result forms", fmt.Sprintf("%s computes something else now; gone: %v; new: %v", name, missing, extra), why, file, line)
+			continue
+		}
+		r.pass("K4-pure-shape", name, "branch conditions and result forms", fmt.Sprintf("%d forms", len(w)), why, file, line)
+	}
 }
